@@ -3,6 +3,49 @@ from __future__ import annotations
 import importlib, os, sys, time, traceback
 from . import common
 
+def _round(args):
+    """one round of the thorough tier in a worker process: own scratch directory, own seed"""
+    pid, seed, lean = args
+    common._scratch = None
+    os.environ['VERIF_SCRATCH_BASE'] = _round.base
+    common.enter_scratch()
+    mod = importlib.import_module(f'harness.props.{pid.lower()}')
+    try:
+        return mod.run(seed=seed, tier='thorough', lean=lean)
+    except Exception as e:
+        tb = traceback.extract_tb(e.__traceback__)
+        inrepo = [f for f in tb if f.filename.startswith(common.REPO + os.sep)]
+        r = common.Result(rule='aborted', evaluations=1)
+        if inrepo:
+            where = f'{os.path.relpath(inrepo[-1].filename, common.REPO)}:{inrepo[-1].name}'
+            r.violations.append(common.Violation(
+                what=f'the implementation raised {type(e).__name__}: {str(e)[:200]} in {where} on a generated well-formed case',
+                fingerprint=f'impl-crash:{type(e).__name__}:{where}',
+                replay={'traceback': traceback.format_exception(type(e), e, e.__traceback__)[-12:], 'case': dict(common.CURRENT), 'seed': seed}))
+        else:
+            r.notes.append('harness error in a thorough round: ' + ''.join(traceback.format_exception(type(e), e, e.__traceback__))[-800:])
+            r.harness_error = True
+        return r
+
+def thorough_rounds(mod, seed, lean, rounds):
+    """the thorough tier: `rounds` independent runs (6 x the quick size each, larger graphs / more hash seeds where the
+    module distinguishes the tiers) with different seeds, in parallel worker processes; results are merged"""
+    import multiprocessing as mp
+    pid = mod.__name__.split('.')[-1].upper()
+    _round.base = common.scratch()
+    seeds = [seed] + [seed * 1000003 + 7919 * k for k in range(1, rounds)]
+    with mp.get_context('fork').Pool(min(rounds, max(2, (os.cpu_count() or 4) - 2))) as pool:
+        parts = pool.map(_round, [(pid, s, lean) for s in seeds])
+    res = parts[0]
+    for r in parts[1:]:
+        res.evaluations += r.evaluations; res.nontrivial |= r.nontrivial; res.drift += r.drift
+        res.violations += r.violations; res.notes += r.notes; res.traces_validated += r.traces_validated
+        for k, v in r.distribution.items(): res.distribution[k] = res.distribution.get(k, 0) + v
+    if any(getattr(r, 'harness_error', False) for r in parts):
+        print('\n'.join(n for r in parts for n in r.notes if n.startswith('harness error'))[:3000]); sys.exit(2)
+    res.notes.append(f'thorough tier: {rounds} rounds with seeds {seeds}')
+    return res
+
 def main(argv):
     if len(argv) < 2:
         print('usage: check <Cnn> [quick|thorough] [--replay file]'); return 2
@@ -22,7 +65,10 @@ def main(argv):
         return mod.replay(replay)
     lean = common.lean_side(pid, tier)
     try:
-        res = mod.run(seed=seed, tier=tier, lean=lean)
+        if tier == 'thorough' and int(os.environ.get('VERIF_THOROUGH_ROUNDS', '8')) > 1:
+            res = thorough_rounds(mod, seed, lean, int(os.environ.get('VERIF_THOROUGH_ROUNDS', '8')))
+        else:
+            res = mod.run(seed=seed, tier=tier, lean=lean)
     except Exception as e:
         # safety net: the real code raised somewhere the harness does not expect an exception (on the unchanged
         # tree it never does).  Reported with the case the harness was working on.
